@@ -434,6 +434,33 @@ let run_case (fields : string list) : string =
     (match recognize_http (unhex m) (unhex t) with
      | Ok (PHttp a) -> "OK H " ^ addr_str a | Ok (PHttps a) -> "OK S " ^ addr_str a
      | Err _ -> "ERR" | Panic -> "PANIC")
+  | "hshake" :: stream :: arrivals :: local :: _ ->
+    (* client/handshake.rs::get_request_addr over an arrival history: stream = hex of everything the application
+       sends, arrivals = comma-separated "bytes arrived so far" lengths ("-" = everything at once), local = hex of
+       the local socket address in SOCKS5 encoding (ATYP ADDR PORT).
+       OK <5|H|S> <target> <hex reply> <consumed>  |  ERR <why> <hex reply>  |  PANIC *)
+    let local = (match s5_decode (unhex local) with Ok (a, _) -> a | _ -> failwith "hshake: local address") in
+    let hist = List.map (fun x -> n_of_int (int_of_string x)) (csv arrivals) in
+    (match handshake (unhex stream) local hist with
+     | Tunnel (k, a, reply, n) ->
+       Printf.sprintf "OK %s %s %s %d" (match k with KSocks5 -> "5" | KHttp -> "H" | KHttps -> "S") (addr_str a) (hx reply) (int_of_n n)
+     | Refused (why, reply) ->
+       Printf.sprintf "ERR %s %s"
+         (match why with RUnknown -> "unknown" | RTooLong -> "toolong" | RBadTarget -> "badtarget" | RTimeout -> "timeout"
+                       | RHead -> "head" | RSocks -> "socks") (hx reply)
+     | Crashed -> "PANIC")
+  | "hsrecog" :: w :: _ ->
+    (* one iteration of recognize's peek loop on the peeked window (hex) *)
+    (match recognize_step (unhex w) with
+     | DSocks5 -> "SOCKS5" | DHttp a -> "OK H " ^ addr_str a | DHttps a -> "OK S " ^ addr_str a | DWait -> "WAIT"
+     | DTooLong -> "TOOLONG" | DUnknown -> "UNKNOWN" | DError -> "ERR" | DPanic -> "PANIC")
+  | "hsparse" :: w :: _ ->
+    (* httparse::Request::parse with zero header slots: status, method, path *)
+    let (sm, p) = request_parse (unhex w) in let (st, m) = sm in
+    let o = function Some b -> hx b | None -> "none" in
+    Printf.sprintf "%s %s %s" (match st with HComplete -> "complete" | HPartial -> "partial" | HError -> "error") (o m) (o p)
+  | "hsconsume" :: w :: _ ->
+    (match consume_head_step (unhex w) with CConsume n -> Printf.sprintf "CONSUME %d" (int_of_n n) | CWait -> "WAIT" | CFail -> "FAIL")
   | "cfgcipher" :: name :: _ -> (match q_cipher (unhex name) with Some v -> "OK " ^ text_of v | None -> "ERR")
   | "cfgproto" :: name :: _ -> (match q_protocol (unhex name) with Some v -> "OK " ^ text_of v | None -> "ERR")
   | "cfgmode" :: name :: _ ->
